@@ -24,6 +24,8 @@ pub enum Ty {
     Any,
     SetInt,  // dialect only (insertion-ordered sets are not part of the Python-shared core)
     StructT, // dialect only: struct(n = int, s = str, l = list of int)
+    RecV,    // dialect only: instance of RecT = record(n = int, s = field(str, "d"), l = field(list, []))
+    EnumV,   // dialect only: value of EnumT = enum("a", "b", "c")
 }
 
 #[derive(Clone)]
@@ -43,6 +45,8 @@ pub struct Gen<'a> {
     /// also generate what is specific to this implementation's dialect (sets, struct, popitem,
     /// dict | dict, getattr): used by C02/C03/C04/C14, not by C01 (Python-shared core only)
     dialect: bool,
+    /// the prelude declaring RecT / EnumT at module level has been emitted
+    types_declared: bool,
 }
 
 fn absent() -> J {
@@ -115,11 +119,66 @@ const KEYS: &[&str] = &["a", "b", "c", "k1", "k2"];
 
 impl<'a> Gen<'a> {
     pub fn new(rng: &'a mut Rng) -> Gen<'a> {
-        Gen { rng, scopes: vec![vec![]], counter: 0, in_loop: 0, in_def: 0, fail_rate: 12, budget: 60, dialect: false }
+        Gen { rng, scopes: vec![vec![]], counter: 0, in_loop: 0, in_def: 0, fail_rate: 12, budget: 60, dialect: false, types_declared: false }
     }
 
     pub fn set_dialect(&mut self, d: bool) {
         self.dialect = d;
+    }
+
+    /// Module-level declarations of a record type and an enum type (a type gets its name from the
+    /// module-level variable it is first assigned to, so these never go inside a def).
+    pub fn type_prelude(&mut self) -> Vec<J> {
+        self.types_declared = true;
+        let fld = |ty: &str, d: J| callf("field", vec![var(ty), d]);
+        let mut rec = call(var("record"), vec![]);
+        rec["named"] = json!([named("n", var("int")), named("s", fld("str", strlit("d"))), named("l", fld("list", json!({"k": "list", "items": []})))]);
+        let en = call(var("enum"), vec![strlit("a"), strlit("b"), strlit("c")]);
+        vec![json!({"k": "assign", "tg": {"k": "var", "n": "RecT", "ncp": str_to_cp("RecT")}, "e": rec}),
+             json!({"k": "assign", "tg": {"k": "var", "n": "EnumT", "ncp": str_to_cp("EnumT")}, "e": en})]
+    }
+
+    fn typed(&self) -> bool {
+        self.dialect && self.types_declared
+    }
+
+    fn rec_expr(&mut self, d: u32) -> J {
+        let vs = self.vars_of(|t| *t == Ty::RecV);
+        if !vs.is_empty() && self.rng.chance(1, 2) {
+            return var(&self.pick(&vs).name);
+        }
+        let mut c = call(var("RecT"), vec![]);
+        let mut nm = vec![named("n", self.expr(&Ty::Int, d.saturating_sub(1)))];
+        if self.rng.chance(1, 2) {
+            nm.push(named("s", self.expr(&Ty::Str, d.saturating_sub(1))));
+        }
+        if self.rng.chance(1, 3) {
+            nm.insert(0, named("l", self.expr(&Ty::ListInt, d.saturating_sub(1))));
+        }
+        if self.rng.chance(1, 25) {
+            nm = vec![named("s", strlit("only"))]; // the required field is missing
+        }
+        if self.rng.chance(1, 25) {
+            nm.push(named("zz", int(1))); // no such field
+        }
+        if self.rng.chance(1, 25) {
+            nm[0] = named("n", strlit("not an int"));
+        }
+        c["named"] = J::Array(nm);
+        c
+    }
+
+    fn enum_expr(&mut self, d: u32) -> J {
+        let vs = self.vars_of(|t| *t == Ty::EnumV);
+        if !vs.is_empty() && self.rng.chance(1, 2) {
+            return var(&self.pick(&vs).name);
+        }
+        match self.rng.below(5) {
+            0 | 1 => callf("EnumT", vec![strlit(self.pick(&["a", "b", "c", "c", "a", "zz"]))]),
+            2 => json!({"k": "index", "e": var("EnumT"), "i": int(self.pick(&[0i64, 1, 2, -1, 3]))}),
+            3 => dot(var("EnumT"), self.pick(&["a", "b", "c"])),
+            _ => callf("EnumT", vec![bin("+", strlit(""), strlit(self.pick(&["a", "b"])))]),
+        }
     }
 
     pub fn set_fail_rate(&mut self, r: u64) {
@@ -185,6 +244,8 @@ impl<'a> Gen<'a> {
             }
             Ty::SetInt => self.set_int_expr(depth),
             Ty::StructT => self.struct_expr(depth),
+            Ty::RecV => self.rec_expr(depth),
+            Ty::EnumV => self.enum_expr(depth),
             _ => self.leaf(ty),
         }
     }
@@ -317,6 +378,12 @@ impl<'a> Gen<'a> {
                 json!({"k": "lambda", "params": ps, "body": body})
             }
             Ty::Any => int(0),
+            Ty::RecV => {
+                let mut c = call(var("RecT"), vec![]);
+                c["named"] = json!([named("n", int(self.small_int()))]);
+                c
+            }
+            Ty::EnumV => callf("EnumT", vec![strlit(self.pick(&["a", "b", "c"]))]),
             Ty::SetInt => callf("set", vec![json!({"k": "list", "items": [int(self.small_int()), int(self.small_int())]})]),
             Ty::StructT => {
                 let mut c = call(var("struct"), vec![]);
@@ -327,7 +394,7 @@ impl<'a> Gen<'a> {
     }
 
     fn int_expr(&mut self, d: u32) -> J {
-        match self.rng.below(24) {
+        match self.rng.below(26) {
             0 | 1 => {
                 let op = self.pick(&["+", "-", "*"]);
                 let l = self.expr(&Ty::Int, d - 1);
@@ -447,6 +514,12 @@ impl<'a> Gen<'a> {
                 // (x in l) does not imply x in the window: the failure is part of the semantics
                 json!({"k": "if", "c": bin("in", x, l.clone()), "t": mcall(l, "index", a), "f": int(-1)})
             }
+            24 if self.typed() => dot(self.expr(&Ty::RecV, d - 1), "n"),
+            25 if self.typed() => match self.rng.below(3) {
+                0 => dot(self.expr(&Ty::EnumV, d - 1), "index"),
+                1 => callf("len", vec![var("EnumT")]),
+                _ => callf("len", vec![dot(self.expr(&Ty::RecV, d - 1), "l")]),
+            },
             22 if self.dialect => {
                 let t = self.expr(&Ty::StructT, d - 1);
                 if self.rng.chance(1, 4) { callf("getattr", vec![t, strlit(self.pick(&["n", "nope"])), int(7)]) } else { dot(t, "n") }
@@ -469,7 +542,7 @@ impl<'a> Gen<'a> {
     }
 
     fn str_expr(&mut self, d: u32) -> J {
-        match self.rng.below(26) {
+        match self.rng.below(27) {
             12 | 13 => self.percent_expr(d - 1),
             14 | 15 => self.dotformat_expr(d - 1),
             16 => self.fstr_expr(),
@@ -496,6 +569,13 @@ impl<'a> Gen<'a> {
                 let e = self.expr(&Ty::Int, d - 1);
                 callf("chr", vec![bin("+", int(97), bin("%", e, int(26)))])
             }
+            25 if self.typed() => match self.rng.below(5) {
+                0 => dot(self.expr(&Ty::RecV, d - 1), "s"),
+                1 => dot(self.expr(&Ty::EnumV, d - 1), "value"),
+                2 => callf(self.pick(&["str", "repr"]), vec![self.expr(&Ty::RecV, d - 1)]),
+                3 => callf(self.pick(&["str", "repr"]), vec![self.expr(&Ty::EnumV, d - 1)]),
+                _ => dot(var(self.pick(&["RecT", "EnumT"])), "type"),
+            },
             23 if self.dialect => dot(self.expr(&Ty::StructT, d - 1), "s"),
             24 if self.dialect => callf(self.pick(&["str", "repr"]), vec![self.expr(&Ty::StructT, d - 1)]),
             0 | 1 => {
@@ -555,7 +635,7 @@ impl<'a> Gen<'a> {
     }
 
     fn bool_expr(&mut self, d: u32) -> J {
-        match self.rng.below(17) {
+        match self.rng.below(18) {
             10 => {
                 let s = self.expr(&Ty::Str, d - 1);
                 mcall(s, self.pick(&["isalnum", "isalpha", "isdigit", "isspace", "islower", "isupper", "istitle"]), vec![])
@@ -582,6 +662,10 @@ impl<'a> Gen<'a> {
                     0 => bin(self.pick(&["==", "!="]), l, self.expr(&Ty::SetInt, d - 1)),
                     _ => mcall(l, self.pick(&["issubset", "issuperset"]), vec![self.int_iterable(d - 1)]),
                 }
+            }
+            16 if self.typed() => {
+                let t = self.pick(&[Ty::RecV, Ty::EnumV]);
+                bin(self.pick(&["==", "!="]), self.expr(&t, d - 1), self.expr(&t, d - 1))
             }
             14 if self.dialect => bin(self.pick(&["==", "!="]), self.expr(&Ty::StructT, d - 1), self.expr(&Ty::StructT, d - 1)),
             15 if self.dialect => callf("hasattr", vec![self.expr(&Ty::StructT, d - 1), strlit(self.pick(&["n", "s", "zz"]))]),
@@ -709,6 +793,13 @@ impl<'a> Gen<'a> {
                 mcall(s, "splitlines", a)
             }
             10 => callf("list", vec![mcall(self.expr(&Ty::Str, d - 1), self.pick(&["partition", "rpartition"]), vec![strlit(self.pick(&["a", ",", " "]))])]),
+            11 if self.typed() => match self.rng.below(2) {
+                0 => mcall(var("EnumT"), "values", vec![]),
+                _ => {
+                    let x = self.fresh("c");
+                    json!({"k": "compr", "elt": dot(var(&x), "value"), "clauses": [{"k": "for", "tg": {"k": "var", "n": x}, "it": var("EnumT")}]})
+                }
+            },
             0 => {
                 let s = self.expr(&Ty::Str, d - 1);
                 mcall(s, "split", vec![strlit(self.pick(&[",", " ", "a", "ab"]))])
@@ -819,6 +910,10 @@ impl<'a> Gen<'a> {
             tys.push(Ty::SetInt);
             tys.push(Ty::StructT);
         }
+        if self.typed() {
+            tys.push(Ty::RecV);
+            tys.push(Ty::EnumV);
+        }
         let ty = self.pick(&tys);
         // sometimes rebind an existing name of the same scope
         let existing: Vec<Var> = self.scopes.last().unwrap().iter().filter(|v| v.ty == ty).cloned().collect();
@@ -891,6 +986,10 @@ impl<'a> Gen<'a> {
         if self.dialect {
             tys.push(Ty::SetInt);
             tys.push(Ty::StructT);
+        }
+        if self.typed() {
+            tys.push(Ty::RecV);
+            tys.push(Ty::EnumV);
         }
         let ty = self.pick(&tys);
         vec![emit(self.expr(&ty, d))]
@@ -1219,6 +1318,17 @@ impl<'a> Gen<'a> {
 
     /// A whole module; with `in_def` the body is wrapped in `def main(): ...` and called.
     pub fn module(&mut self, nstmts: usize, wrap: bool) -> J {
+        if self.dialect {
+            let pre = self.type_prelude();
+            let mut rest = self.module_inner(nstmts, wrap);
+            let mut out = pre;
+            out.append(rest.as_array_mut().unwrap());
+            return J::Array(out);
+        }
+        self.module_inner(nstmts, wrap)
+    }
+
+    fn module_inner(&mut self, nstmts: usize, wrap: bool) -> J {
         if wrap {
             self.scopes.push(vec![]);
             self.in_def += 1;
@@ -1403,7 +1513,7 @@ impl<'a> Gen<'a> {
         self.fail_rate = 3;
         self.dialect = true;
         self.declare("hostv", Ty::ListAny);
-        let mut out = Vec::new();
+        let mut out = self.type_prelude();
         for _ in 0..nstmts {
             let s = if self.rng.chance(1, 2) { self.gc_stmt() } else { self.stmt(2) };
             out.extend(s);
@@ -1800,6 +1910,14 @@ impl<'a> Gen<'a> {
 
     pub fn module_opt(&mut self, nstmts: usize, wrap: bool) -> J {
         self.dialect = true;
+        let pre = self.type_prelude();
+        let mut rest = self.module_opt_inner(nstmts, wrap);
+        let mut out = pre;
+        out.append(rest.as_array_mut().unwrap());
+        J::Array(out)
+    }
+
+    fn module_opt_inner(&mut self, nstmts: usize, wrap: bool) -> J {
         let mut gen_block = |g: &mut Gen| -> Vec<J> {
             let mut out = Vec::new();
             for _ in 0..nstmts {
